@@ -7,13 +7,15 @@
         -> ok | bad X=<0|1> S=<0|1> O=<0|1> C=<0|1>
     rq <wire-ev>*
         clause (Q): consecutive transmissions carry different IPMB request sequence numbers -> 0 | 1
-    run <xl> <nextSeq> <sessSeq> <calls:cmd>,<calls:cmd>,… <ka ticks|-> <closer tid|-> <join 0|1> <seqLocked 0|1> | <tid:act>*
+    run <xl> <nextSeq> <sessSeq> <calls:cmd>,<calls:cmd>,… <ka ticks|-> <closer tid|-> <join 0|1> <seqLocked 0|1>
+        <max_retries> <lost serial>,<lost serial>,…|- <packOnce 0|1> | <tid:act>*
         trace validation: replay a logged access sequence in the Model (application threads in the
-        order given, the keep-alive thread last; variants `join`, `seqLocked`)
+        order given, the keep-alive thread last; variants `join`, `seqLocked`, `packOnce`; retry budget and the
+        datagrams whose reply the network loses)
         -> ok wire <wire-ev>* res <res>* mon <0|1> done <0|1> act <0|1>
          | reject <index> expected <act|none>
 
-  wire-ev ::= T:tid:serial:seq:rq:cmd | R:tid:serial
+  wire-ev ::= T:tid:serial:seq:rq:cmd | R:tid:serial | X:tid:serial     (X: time-out on datagram `serial`)
   res     ::= tid:sent:got            (got = "-" when the call failed)
   act     ::= ldNS:v | stNS:v | acq | rel | ldSS:v | stSS:v | tx:serial:seq:rq:cmd | rx:serial
             | rxTimeout | qget:serial | qput:serial
@@ -27,11 +29,13 @@ def parseWEv (s : String) : Option WEv :=
   match s.splitOn ":" with
   | ["T", a, b, c, d, e] => do pure (.tx (← a.toNat?) (← b.toNat?) (← c.toNat?) (← d.toNat?) (← e.toNat?))
   | ["R", a, b] => do pure (.rx (← a.toNat?) (← b.toNat?))
+  | ["X", a, b] => do pure (.to (← a.toNat?) (← b.toNat?))
   | _ => none
 
 def showWEv : WEv → String
   | .tx a b c d e => s!"T:{a}:{b}:{c}:{d}:{e}"
   | .rx a b => s!"R:{a}:{b}"
+  | .to a b => s!"X:{a}:{b}"
 
 def parseRes (s : String) : Option Res :=
   match s.splitOn ":" with
@@ -83,6 +87,13 @@ def parseThreads (s : String) : Option (List (Nat × Nat)) :=
     | [a, b] => do pure (← a.toNat?, ← b.toNat?)
     | _ => none
 
+/-- `3,5` → the loss plan [f, f, f, t, f, t] -/
+def parseLoss (s : String) : Option (List Bool) :=
+  if s == "-" then some [] else do
+    let ks ← (s.splitOn ",").mapM (·.toNat?)
+    let top := ks.foldl max 0
+    pure ((List.range (top + 1)).map fun i => ks.contains i)
+
 def splitBar (l : List String) : List String × List String :=
   (l.takeWhile (· ≠ "|"), (l.dropWhile (· ≠ "|")).drop 1)
 
@@ -102,13 +113,15 @@ def handleC14 (line : String) : String :=
     match w.mapM parseWEv with
     | some wire => b01 (rqDistinct wire)
     | none => "bad-op"
-  | "run" :: xl :: ns :: ss :: thr :: ka :: closer :: join :: sl :: rest =>
+  | "run" :: xl :: ns :: ss :: thr :: ka :: closer :: join :: sl :: mr :: loss :: po :: rest =>
     let (_, tr) := splitBar rest
     match xl.toNat?, ns.toNat?, ss.toNat?, parseThreads thr, parseOptNat ka, parseOptNat closer, join.toNat?,
-        sl.toNat?, tr.mapM parseTAct with
-    | some xl, some ns, some ss, some thr, some ka, some closer, some join, some sl, some tr =>
+        sl.toNat?, tr.mapM parseTAct, mr.toNat?, parseLoss loss, po.toNat? with
+    | some xl, some ns, some ss, some thr, some ka, some closer, some join, some sl, some tr, some mr, some loss,
+        some po =>
       match replay (init { nextSeq := ns, sessSeq := ss, xl := xl, threads := thr, ka := ka, closer := closer,
-                           join := join != 0, seqLocked := sl != 0 }) tr with
+                           join := join != 0, seqLocked := sl != 0, maxRetries := mr, loss := loss,
+                           packOnce := po != 0 }) tr with
       | .ok s =>
         let done := s.thr.all fun th => th.pc == .done || th.pc == .kaWait
         "ok wire " ++ " ".intercalate (s.wireChron.map showWEv) ++ " res " ++
@@ -116,7 +129,7 @@ def handleC14 (line : String) : String :=
           s!" mon {b01 (accepts s.wireChron s.results)} done {b01 done} act {b01 s.activated}"
       | .error (i, l) =>
         s!"reject {i} expected " ++ (match l with | some a => showAct a | none => "none")
-    | _, _, _, _, _, _, _, _, _ => "bad-op"
+    | _, _, _, _, _, _, _, _, _, _, _, _ => "bad-op"
   | _ => "bad-op"
 
 def main : IO Unit := do
